@@ -37,6 +37,17 @@ struct Ctx<'a> {
 }
 
 impl Ctx<'_> {
+    fn violate_props(&mut self, props: &[&'static str], sig: &str, detail: String, case: &str) {
+        self.report.stats.inc("violating_cases");
+        if self.prop != "all" && !props.iter().any(|p| *p == self.prop) {
+            return;
+        }
+        if self.report.violations.len() < 6 && !self.report.violations.iter().any(|v| v.get("sig").and_then(|s| s.as_str()) == Some(sig)) {
+            let v = Violation { props: props.to_vec(), sig: sig.into(), detail, op_index: 0 };
+            self.report.violations.push(Report::violation_json(&v, &format!("# engine cfgmon\n# {}\n", case), 0));
+        }
+    }
+
     fn violate(&mut self, sig: &str, detail: String, case: &str) {
         self.report.stats.inc("violating_cases");
         if self.prop != "all" && self.prop != "C17" {
@@ -65,7 +76,7 @@ fn build_and_check(ctx: &mut Ctx, kind: Kind, k: Knobs, must_panic: Option<&'sta
     let case = format!("{:?} {:?}", kind, k);
     ctx.report.evaluations += 1;
     ctx.report.stats.inc("builder_combinations");
-    let r = std::panic::catch_unwind(|| -> (Option<u64>, Option<Duration>, Option<Duration>) {
+    let r = std::panic::catch_unwind(|| -> ((Option<u64>, Option<Duration>, Option<Duration>), Option<(String, String)>) {
         match kind {
             Kind::Unsync => {
                 let mut b = mini_moka::unsync::Cache::<TK, TV>::builder();
@@ -98,8 +109,28 @@ fn build_and_check(ctx: &mut Ctx, kind: Kind, k: Knobs, must_panic: Option<&'sta
                         }
                     }
                 }
-                let p = if k.with_hasher { b.build_with_hasher(TestBuildHasher(HashMode::Identity)).policy() } else { b.build().policy() };
-                (p.max_capacity(), p.time_to_live(), p.time_to_idle())
+                // whatever the builder accepted must be usable: a few ordinary calls, none of which may panic
+                macro_rules! exercise_unsync {
+                    ($c:expr) => {{
+                        let mut c = $c;
+                        let p = c.policy();
+                        let e = std::panic::catch_unwind(std::panic::AssertUnwindSafe(|| {
+                            c.insert(TK::new(1), TV::new(1, 1));
+                            let _ = c.get(&TK::probe(1)).map(|v| v.vid);
+                            c.insert(TK::new(2), TV::new(2, 1));
+                            let _ = c.contains_key(&TK::probe(2));
+                            c.invalidate(&TK::probe(1));
+                            let _ = c.iter().count();
+                        }));
+                        let ex = if e.is_err() { std::mem::forget(c); take_panic() } else { None };
+                        ((p.max_capacity(), p.time_to_live(), p.time_to_idle()), ex)
+                    }};
+                }
+                if k.with_hasher {
+                    exercise_unsync!(b.build_with_hasher(TestBuildHasher(HashMode::Identity)))
+                } else {
+                    exercise_unsync!(b.build())
+                }
             }
             Kind::Sync => {
                 let mut b = mini_moka::sync::Cache::<TK, TV>::builder();
@@ -132,11 +163,43 @@ fn build_and_check(ctx: &mut Ctx, kind: Kind, k: Knobs, must_panic: Option<&'sta
                         }
                     }
                 }
-                let p = if k.with_hasher { b.build_with_hasher(TestBuildHasher(HashMode::Identity)).policy() } else { b.build().policy() };
-                (p.max_capacity(), p.time_to_live(), p.time_to_idle())
+                macro_rules! exercise_sync {
+                    ($c:expr) => {{
+                        let c = $c;
+                        let p = c.policy();
+                        let e = std::panic::catch_unwind(std::panic::AssertUnwindSafe(|| {
+                            c.insert(TK::new(1), TV::new(1, 1));
+                            let _ = c.get(&TK::probe(1)).map(|v| v.vid);
+                            c.sync();
+                            c.insert(TK::new(2), TV::new(2, 1));
+                            let _ = c.contains_key(&TK::probe(2));
+                            c.invalidate(&TK::probe(1));
+                            c.sync();
+                            let _ = c.iter().count();
+                        }));
+                        let ex = if e.is_err() { std::mem::forget(c); take_panic() } else { None };
+                        ((p.max_capacity(), p.time_to_live(), p.time_to_idle()), ex)
+                    }};
+                }
+                if k.with_hasher {
+                    exercise_sync!(b.build_with_hasher(TestBuildHasher(HashMode::Identity)))
+                } else {
+                    exercise_sync!(b.build())
+                }
             }
         }
     });
+    // a cache that was built must not panic in ordinary calls (C08), whatever durations it was built with
+    let r = match r {
+        Ok((p, ex)) => {
+            ctx.report.stats.inc("built_caches_exercised");
+            if let Some((loc, msg)) = ex {
+                ctx.violate_props(&["C08", "C17"], &format!("panic@{}", mmv::monitor::norm_loc(&loc)), format!("a cache that build accepted ({:?}) panicked in an ordinary call at {}: {}", k, loc, msg), &case);
+            }
+            Ok(p)
+        }
+        Err(e) => Err(e),
+    };
     match (r, must_panic) {
         (Ok(p), None) => {
             if p != (k.cap, k.ttl, k.tti) {
